@@ -58,3 +58,179 @@ Lemma tab_strict : table_all gate_row p_strict = true. Proof. vm_compute. reflex
 Lemma tab_postauth : table_all gate_row p_postauth = true. Proof. vm_compute. reflexivity. Qed.
 Lemma tab_unassigned : table_all gate_row p_unassigned = true. Proof. vm_compute. reflexivity. Qed.
 Lemma tab_malformed : table_all gate_row p_malformed = true. Proof. vm_compute. reflexivity. Qed.
+
+(* ====================================================================================================== *)
+(* Part 2: the hand model *)
+
+Ltac unfold_model :=
+  unfold dispatch, on_connmsg, on_kexmsg, on_authmsg, on_service_request, on_service_accept, on_ext_info,
+         on_kexinit, on_newkeys, on_userauth_request, on_userauth_failure, on_userauth_success, on_banner,
+         try_next_auth, send_userauth_failure, send_userauth_success, send_newkeys, send_kexinit, unimpl,
+         fatal, abort, send_deferred, send_packet, emit.
+
+Ltac crush_ifs :=
+  repeat match goal with
+         | |- context [if ?b then _ else _] => let E := fresh "E" in destruct b eqn:E
+         | |- context [match ?l with [] => _ | _ :: _ => _ end] => destruct l
+         end.
+
+(* ---- frame facts: which fields a function cannot change ------------------------------------------------ *)
+Section Frames.
+  (* the fields that only one handler each may change *)
+  Lemma send_list_strict : forall l c, strict (send_list c l) = strict c.
+  Proof. induction l as [|t r IH]; intros c; simpl; [reflexivity|]. rewrite IH. unfold send_packet, emit. crush_ifs; reflexivity. Qed.
+  Lemma send_list_recv_enc : forall l c, recv_enc (send_list c l) = recv_enc c.
+  Proof. induction l as [|t r IH]; intros c; simpl; [reflexivity|]. rewrite IH. unfold send_packet, emit. crush_ifs; reflexivity. Qed.
+  Lemma send_list_unsolicited : forall l c, unsolicited (send_list c l) = unsolicited c.
+  Proof. induction l as [|t r IH]; intros c; simpl; [reflexivity|]. rewrite IH. unfold send_packet, emit. crush_ifs; reflexivity. Qed.
+  Lemma send_list_srv : forall l c, srv (send_list c l) = srv c.
+  Proof. induction l as [|t r IH]; intros c; simpl; [reflexivity|]. rewrite IH. unfold send_packet, emit. crush_ifs; reflexivity. Qed.
+  Lemma send_list_closed : forall l c, closed (send_list c l) = closed c.
+  Proof. induction l as [|t r IH]; intros c; simpl; [reflexivity|]. rewrite IH. unfold send_packet, emit. crush_ifs; reflexivity. Qed.
+  Lemma send_list_auth : forall l c, auth (send_list c l) = auth c.
+  Proof. induction l as [|t r IH]; intros c; simpl; [reflexivity|]. rewrite IH. unfold send_packet, emit. crush_ifs; reflexivity. Qed.
+  Lemma send_list_pending : forall l c, pending (send_list c l) = pending c.
+  Proof. induction l as [|t r IH]; intros c; simpl; [reflexivity|]. rewrite IH. unfold send_packet, emit. crush_ifs; reflexivity. Qed.
+  Lemma send_list_can_recv_ext : forall l c, can_recv_ext (send_list c l) = can_recv_ext c.
+  Proof. induction l as [|t r IH]; intros c; simpl; [reflexivity|]. rewrite IH. unfold send_packet, emit. crush_ifs; reflexivity. Qed.
+  Lemma send_list_auth_complete : forall l c, auth_complete (send_list c l) = auth_complete c.
+  Proof. induction l as [|t r IH]; intros c; simpl; [reflexivity|]. rewrite IH. unfold send_packet, emit. crush_ifs; reflexivity. Qed.
+  Lemma send_list_authed : forall l c, authed (send_list c l) = authed c.
+  Proof. induction l as [|t r IH]; intros c; simpl; [reflexivity|]. rewrite IH. unfold send_packet, emit. crush_ifs; reflexivity. Qed.
+  Lemma send_list_user : forall l c, user (send_list c l) = user c.
+  Proof. induction l as [|t r IH]; intros c; simpl; [reflexivity|]. rewrite IH. unfold send_packet, emit. crush_ifs; reflexivity. Qed.
+  Lemma send_list_auth_final : forall l c, auth_final (send_list c l) = auth_final c.
+  Proof. induction l as [|t r IH]; intros c; simpl; [reflexivity|]. rewrite IH. unfold send_packet, emit. crush_ifs; reflexivity. Qed.
+  Lemma send_list_req_issued : forall l c, req_issued (send_list c l) = req_issued c.
+  Proof. induction l as [|t r IH]; intros c; simpl; [reflexivity|]. rewrite IH. unfold send_packet, emit. crush_ifs; reflexivity. Qed.
+End Frames.
+
+#[export] Hint Rewrite send_list_strict send_list_recv_enc send_list_unsolicited send_list_srv send_list_closed
+  send_list_auth send_list_pending send_list_can_recv_ext send_list_auth_complete send_list_authed send_list_user
+  send_list_auth_final send_list_req_issued : frame.
+
+Ltac frame := intros; unfold_model; cbv zeta; crush_ifs; autorewrite with frame; cbn; autorewrite with frame; try reflexivity.
+
+Lemma run_task_strict c k : strict (run_task c k) = strict c.
+Proof. destruct k; unfold run_task; frame. Qed.
+
+Lemma run_tasks_strict : forall n c, strict (run_tasks n c) = strict c.
+Proof.
+  induction n as [|n IH]; intros c; simpl; [reflexivity|].
+  destruct (closed c); [reflexivity|]. destruct (pending c) as [|k r]; [reflexivity|].
+  rewrite IH, run_task_strict. reflexivity.
+Qed.
+
+(* ---- receive sequence number: restart at NEWKEYS under strict KEX, in every run ------------------------- *)
+Lemma note_all_frame : forall l s,
+  cn (note_all s l) = cn s /\ recv_seq (note_all s l) = recv_seq s /\ last_recv (note_all s l) = last_recv s /\
+  clear_acc (note_all s l) = clear_acc s.
+Proof. induction l as [|t r IH]; intros s; simpl; [auto|]. destruct (IH (mkst (cn s) (recv_seq s) (note_sent (strict (cn s)) (send_seq s) t) (last_recv s) t (clear_acc s))) as (A & B & C & D). simpl in *. auto. Qed.
+
+Definition inv_rseq (s : st) : Prop :=
+  last_recv s = 21 -> strict (cn s) = true -> closed (cn s) = false -> recv_seq s = 0.
+
+Lemma run_tasks_closed_id : forall n c, closed c = true -> run_tasks n c = c.
+Proof. destruct n; intros c H; simpl; [reflexivity|]. rewrite H. reflexivity. Qed.
+
+Lemma step_inv_rseq0 fixed s e : inv_rseq s -> inv_rseq (step fixed s e).
+Proof.
+  intros H. destruct e as [|t cls|]; cbn [step].
+  - destruct (closed (cn s)) eqn:Ec; [exact H|]. exact H.
+  - unfold recv.
+    destruct (closed (cn s)) eqn:Ec; [exact H|].
+    set (c1 := dispatch fixed _ _ t cls).
+    destruct (closed c1) eqn:Ec1.
+    + intros _ _ Hc. simpl in Hc. congruence.
+    + unfold finish_recv.
+      set (c2 := if 79 <? t then set_auth_final true c1 else c1).
+      destruct ((recv_seq s =? M32 - 1) && negb (recv_enc c2)) eqn:Er.
+      * intros _ _ Hc. simpl in Hc. discriminate.
+      * intros Hl Hs Hc. simpl in *. subst t. rewrite Hs. reflexivity.
+  - unfold inv_rseq. cbn [with_conn cn last_recv recv_seq]. intros Hl Hs Hc.
+    rewrite run_tasks_strict in Hs.
+    destruct (closed (cn s)) eqn:Ec.
+    + rewrite run_tasks_closed_id in Hc by exact Ec. congruence.
+    + apply H; auto.
+Qed.
+
+Lemma step_inv_rseq fixed s e : inv_rseq s -> inv_rseq (step fixed (begin_step s) e).
+Proof. intros H. apply step_inv_rseq0. exact H. Qed.
+
+Lemma run_inv_rseq fixed : forall l s, inv_rseq s -> inv_rseq (run fixed s l).
+Proof.
+  induction l as [|e r IH]; intros s H; simpl; [exact H|]. apply IH.
+  unfold step_booked. pose proof (step_inv_rseq fixed s e H) as H1.
+  destruct (note_all_frame (map fst (olog (cn (step fixed (begin_step s) e)))) (step fixed (begin_step s) e)) as (A & B & C & D).
+  unfold inv_rseq in *. rewrite A, B, C. exact H1.
+Qed.
+
+Lemma recv_seq_reset_all_runs fixed server l :
+  let s := run fixed (init server) l in
+  last_recv s = 21 -> strict (cn s) = true -> closed (cn s) = false -> recv_seq s = 0.
+Proof. apply run_inv_rseq. intros H. simpl in H. discriminate. Qed.
+
+(* ---- send sequence number ------------------------------------------------------------------------------ *)
+Lemma note_all_count : forall l s,
+  ~ In 21 l -> send_seq (note_all s l) = (send_seq s + Z.of_nat (List.length l)) mod M32 \/ l = [].
+Proof. intros. destruct l; [right; reflexivity|left]. revert s. Abort.
+
+Lemma note_all_no21 : forall l s,
+  ~ In 21 l -> 0 <= send_seq s < M32 ->
+  send_seq (note_all s l) = (send_seq s + Z.of_nat (List.length l)) mod M32.
+Proof.
+  induction l as [|t r IH]; intros s Hn Hb.
+  - simpl. rewrite Z.add_0_r. rewrite Z.mod_small; [reflexivity | exact Hb].
+  - simpl note_all. rewrite IH.
+    + simpl. unfold note_sent. destruct (t =? 21) eqn:E; [apply Z.eqb_eq in E; exfalso; apply Hn; left; auto|].
+      simpl. unfold M32 in *. rewrite Zplus_mod_idemp_l. f_equal. lia.
+    + intros Hi. apply Hn. right. exact Hi.
+    + simpl. unfold note_sent. destruct ((t =? 21) && strict (cn s)); unfold M32; [lia|].
+      apply Z.mod_pos_bound. lia.
+Qed.
+
+(* numbering restarts behind a NEWKEYS: the k packets sent after it carry 0 .. k-1 *)
+Lemma send_seq_reset : forall l1 l2 s,
+  strict (cn s) = true -> ~ In 21 l2 ->
+  send_seq (note_all s (l1 ++ 21 :: l2)) = Z.of_nat (List.length l2) mod M32.
+Proof.
+  induction l1 as [|t r IH]; intros l2 s Hs Hn.
+  - simpl app. simpl note_all. rewrite note_all_no21; simpl.
+    + unfold note_sent. rewrite Hs. simpl. reflexivity.
+    + exact Hn.
+    + unfold note_sent. rewrite Hs. simpl. unfold M32. lia.
+  - simpl. apply IH; simpl; auto.
+Qed.
+
+(* what send_newkeys puts on the wire starts with NEWKEYS *)
+Lemma send_list_olog_prefix : forall l c, exists r, olog (send_list c l) = olog c ++ r.
+Proof.
+  induction l as [|t rr IH]; intros c; simpl; [exists []; rewrite app_nil_r; reflexivity|].
+  destruct (IH (send_packet c t 0)) as [r Hr]. rewrite Hr.
+  unfold send_packet, emit. crush_ifs; cbn; rewrite <- ?app_assoc; eexists; reflexivity.
+Qed.
+
+Lemma send_newkeys_olog c : exists r, olog (send_newkeys c) = olog c ++ (21, 0) :: r.
+Proof.
+  unfold send_newkeys, send_deferred. cbv zeta.
+  match goal with |- context [send_list ?x ?l] => destruct (send_list_olog_prefix l x) as [r Hr]; rewrite Hr end.
+  unfold send_packet, emit. crush_ifs; cbn; rewrite <- ?app_assoc; cbn; eexists; reflexivity.
+Qed.
+
+(* ---- the initial exchange under strict KEX, in every run -------------------------------------------------- *)
+Lemma send_list_sid : forall l c, sid (send_list c l) = sid c.
+Proof. induction l as [|t r IH]; intros c; simpl; [reflexivity|]. rewrite IH. unfold send_packet, emit. crush_ifs; reflexivity. Qed.
+Lemma send_list_next_recv : forall l c, next_recv (send_list c l) = next_recv c.
+Proof. induction l as [|t r IH]; intros c; simpl; [reflexivity|]. rewrite IH. unfold send_packet, emit. crush_ifs; reflexivity. Qed.
+#[export] Hint Rewrite send_list_sid send_list_next_recv : frame.
+
+(* the peer's NEWKEYS can only be accepted after our own NEWKEYS went out (which fixes the session id) *)
+Definition pre_sid (c : conn) : Prop := sid c = false -> next_recv c = false /\ recv_enc c = false.
+
+Lemma dispatch_pre_sid fixed c seq t cls : pre_sid c -> pre_sid (dispatch fixed c seq t cls).
+Proof.
+  unfold pre_sid. intros H.
+  unfold_model; cbv zeta; crush_ifs; autorewrite with frame; cbn; autorewrite with frame; cbn;
+    try (intros D; discriminate D); try exact H;
+    try (intros D; destruct (H D) as [H1 H2]; split; congruence).
+Qed.
